@@ -21,10 +21,10 @@ def run(tier, replay=None):
     work = C.fresh_dir(C.WORK / PID)
     rnd = random.Random(rep.seed)
     small, g1 = gen.run_generator("GenMod", work / "gen3", dict(MaxMods=3))
-    if tier == "quick":
-        cases = small
-    else:
-        cases = small
+    four, g4 = gen.run_generator("GenMod", work / "gen4", cfg="GenMod4", timeout=1200)
+    if tier == "quick" and len(four) > 1500:
+        four = rnd.sample(four, 1500)
+    cases = small + four
     for c in cases:
         c["id"] = f"n={c['n']} bare={[k + 1 for k, b in enumerate(c['bare']) if b]} " + " ".join(f"{e['i']}>{e['j']}:{e['form'][0]}{e['spell'][0]}{e['place'][0]}" for e in c["edges"])
     cases = gen.dedupe(cases, lambda c: c["id"])
@@ -79,7 +79,7 @@ def run(tier, replay=None):
         states=st["states"] + g1.distinct + tv.distinct, transitions=st["transitions"] + g1.generated + tv.generated,
         traces_validated_against_impl=len(traces), traces_accepted=len(acc), programs=len(cases), executions=2 * len(cases),
         evaluations=len(cases), distinct_nontrivial=sum(1 for c in cases if len(c["edges"]) >= 2),
-        rule="GenMod.tla: every import DAG over <= 3 modules (entry .. shared counter module) x import form per edge x path spelling (m / ./m) x placement of each import before/after the importer's first side effect; non-trivial = at least two import edges",
+        rule="GenMod.tla: (a) every import DAG over 4 modules with plain spelling and early placement (quick: seeded sample of 1500) and (b) every import DAG over <= 3 modules (entry .. shared counter module) x import form per edge x path spelling (m / ./m) x placement of each import before/after the importer's first side effect; non-trivial = at least two import edges",
         exhaustive=True, out_of_model=len(skips),
         samples=[dict(id=c["id"], out=c["obs"][0]["out"]) for c in cases[:: max(1, len(cases) // 3)][:3]],
     )
